@@ -1,9 +1,213 @@
 import Drive.Json
-/-! Line-protocol handlers: Heap (stub until the model lands). -/
+import PlaybackModel.Heap
+/-! Line-protocol handlers for the heap model (C11).
+
+One request = one whole scenario: `{"m":"c11.run","copy":bool,"direct":bool,"steps":[…]}`.  The driver keeps the
+model state and a table from script variables to addresses; every change of the state goes through
+`PlaybackModel.Heap.runClient` (so the C11 theorems, which quantify over all operation lists, cover every scenario). -/
 open Lean
 namespace Drive.Heap
-open Drive
+open Drive PlaybackModel.Heap
 
-def handlers : List (String × Handler) := []
+partial def toTree (j : Json) : Except String Tree :=
+  match optField j "a" with
+  | some a => do .ok (.atom (← asStr a))
+  | none => do
+    let k ← strField j "k"
+    let ls ← mapM' asStr (← arrField j "l")
+    let kids ← mapM' toTree (← arrField j "c")
+    .ok (.node k ls kids)
+
+partial def treeJson : Tree → Json
+  | .atom s => jObj [("a", Json.str s)]
+  | .node k ls kids => jObj [("k", Json.str k), ("l", jArr (ls.map Json.str)), ("c", jArr (kids.map treeJson))]
+
+inductive PathElem where
+  | idx (n : Nat)
+  | key (s : String)
+
+def toPath (j : Json) : Except String (List PathElem) := do
+  mapM' (fun e =>
+    match optField e "i", optField e "k" with
+    | some i, _ => do .ok (.idx (← asNat i))
+    | _, some k => do .ok (.key (← asStr k))
+    | _, _ => .error s!"bad path element {e.compress}") (← asArr j)
+
+def isSeq (kind : String) : Bool := kind == "list" || kind == "tuple"
+def isMap (kind : String) : Bool := kind == "dict" || kind.startsWith "obj:"
+
+/-- follow a path of list indices / dict keys / attribute names from an address -/
+def navigate (h : Heap) : Nat → List PathElem → Option Nat
+  | a, [] => some a
+  | a, .idx n :: r =>
+    match h[a]? with
+    | some (.node k _ kids) => if isSeq k then (kids[n]?).bind (fun b => navigate h b r) else none
+    | _ => none
+  | a, .key s :: r =>
+    match h[a]? with
+    | some (.node k ls kids) =>
+      if isMap k then (kids[ls.idxOf s]?).bind (fun b => if ls.contains s then navigate h b r else none) else none
+    | _ => none
+
+structure DSt where
+  st : St
+  vars : List (String × Nat)        -- script variable ↦ address
+  recs : List (String × Nat)        -- script recording name ↦ index in st.recs
+  out : List Json                   -- observations, most recent first
+
+def DSt.run (d : DSt) (cfg : Cfg) (ops : List ClientOp) : DSt := { d with st := runClient cfg d.st ops }
+def DSt.emit (d : DSt) (j : Json) : DSt := { d with out := j :: d.out }
+def DSt.bind (d : DSt) (v : String) (a : Nat) : DSt := { d with vars := (v, a) :: d.vars }
+
+def lastHanded (st : St) : Option Nat := st.handed.getLast?
+
+/-- an operand of an edit: a new value, or an object the client already holds -/
+def operand (cfg : Cfg) (d : DSt) (x : Json) : Except String (DSt × Option Nat) :=
+  match optField x "tree" with
+  | some t => do
+    let d' := d.run cfg [.new (← toTree t)]
+    .ok (d', lastHanded d'.st)
+  | none => do
+    let v ← strField x "var"
+    let p ← toPath (fieldD x "path" (jArr []))
+    .ok (d, (d.vars.lookup v).bind (fun a => navigate d.st.heap a p))
+
+def removeAt {α : Type} (l : List α) (i : Nat) : List α := l.take i ++ l.drop (i + 1)
+
+/-- the cell after an edit, `none` when the edit does not apply to this kind of object -/
+def editCell (h : Heap) (c : Cell) (e : String) (key : Option PathElem) (x : Option Nat) : Option Cell :=
+  match c with
+  | .atom _ => none
+  | .node k ls kids =>
+    match e, key, x with
+    | "append", _, some a => if k == "list" then some (.node k ls (kids ++ [a])) else none
+    | "pop", _, _ => if k == "list" && !kids.isEmpty then some (.node k ls kids.dropLast) else none
+    | "clear", _, _ => if k == "list" || k == "dict" || k == "set" then some (.node k [] []) else none
+    | "setitem", some (.idx n), some a => if k == "list" && n < kids.length then some (.node k ls (kids.set n a)) else none
+    | "setitem", some (.key s), some a =>
+      if k == "dict" then
+        if ls.contains s then some (.node k ls (kids.set (ls.idxOf s) a)) else some (.node k (ls ++ [s]) (kids ++ [a]))
+      else none
+    | "setattr", some (.key s), some a =>
+      if k.startsWith "obj:" then
+        if ls.contains s then some (.node k ls (kids.set (ls.idxOf s) a)) else some (.node k (ls ++ [s]) (kids ++ [a]))
+      else none
+    | "delitem", some (.key s), _ =>
+      if k == "dict" && ls.contains s then some (.node k (removeAt ls (ls.idxOf s)) (removeAt kids (ls.idxOf s))) else none
+    | "add", _, some a =>
+      if k == "set" then
+        if kids.any (fun b => decide (readD h b = readD h a)) then some (.node k ls kids) else some (.node k ls (kids ++ [a]))
+      else none
+    | _, _, _ => none
+
+def obsJson (d : DSt) (a : Option Nat) : Json :=
+  match a with
+  | some a => treeJson (readD d.st.heap a)
+  | none => Json.str "<none>"
+
+def step (cfg : Cfg) (d : DSt) (j : Json) : Except String DSt := do
+  let op ← strField j "op"
+  -- a variable is unbound when the read that should have bound it handed nothing out: such steps are no-ops
+  let var := fun (k : String) => do
+    let v ← strField j k
+    pure (d.vars.lookup v)
+  let rec' := do
+    let r ← strField j "rec"
+    match d.recs.lookup r with
+    | some i => pure i
+    | none => throw s!"unbound recording {r}"
+  match op with
+  | "new" =>
+    let d' := d.run cfg [.new (← toTree (← field j "tree"))]
+    match lastHanded d'.st with
+    | some a => .ok (d'.bind (← strField j "var") a)
+    | none => .error "new: nothing handed"
+  | "recordIn" =>
+    match ← var "var" with
+    | some a => .ok (d.run cfg [.recordIn (← strField j "key") a])
+    | none => .error "recordIn: unbound variable"
+  | "recordRaw" =>
+    match ← var "var" with
+    | some a => .ok (d.run cfg [.recordRaw (← strField j "key") a])
+    | none => .error "recordRaw: unbound variable"
+  | "recordOut" =>
+    let args ← mapM' (fun v => do
+      match d.vars.lookup (← asStr v) with
+      | some a => pure a
+      | none => throw "unbound arg") (← arrField j "args")
+    let kwl ← mapM' asStr (← arrField j "kwl")
+    let kwv ← mapM' (fun v => do
+      match d.vars.lookup (← asStr v) with
+      | some a => pure a
+      | none => throw "unbound kwarg") (← arrField j "kwv")
+    .ok (d.run cfg [.recordOut (← strField j "key") args kwl kwv])
+  | "save" => .ok (d.run cfg [.save (← toTree (← field j "md"))])
+  | "fetch" =>
+    let n := d.st.recs.length
+    let d' := d.run cfg [.fetch (← natField j "id")]
+    if d'.st.recs.length == n then .ok (d'.emit (Json.str "NoSuchRecording"))
+    else .ok { d' with recs := ((← strField j "rec"), n) :: d'.recs }
+  | "get" =>
+    let r ← rec'
+    let n := d.st.handed.length
+    let d' := d.run cfg [.getData r (← strField j "key")]
+    if d'.st.handed.length == n then .ok (d'.emit (Json.str "RecordingKeyError"))
+    else
+      let sub ← toPath (fieldD j "sub" (jArr []))
+      let vname ← strField j "var"
+      let a := (lastHanded d'.st).bind (fun a => navigate d'.st.heap a sub)
+      let d'' := match a with
+        | some a => d'.bind vname a
+        | none => d'
+      .ok (d''.emit (obsJson d'' a))
+  | "meta" =>
+    let r ← rec'
+    let d' := d.run cfg [.getMeta r]
+    let sub ← toPath (fieldD j "sub" (jArr []))
+    let vname ← strField j "var"
+    let a := (lastHanded d'.st).bind (fun a => navigate d'.st.heap a sub)
+    let d'' := match a with
+      | some a => d'.bind vname a
+      | none => d'
+    .ok (d''.emit (obsJson d'' a))
+  | "set" =>
+    match ← var "var" with
+    | some a => .ok (d.run cfg [.setData (← rec') (← strField j "key") a])
+    | none => .ok d
+  | "obs" => .ok (d.emit (obsJson d (← var "var")))
+  | "mut" =>
+    let base? ← var "var"
+    let p ← toPath (fieldD j "path" (jArr []))
+    let e ← field j "edit"
+    let ename ← strField e "e"
+    let key ← match optField e "key" with
+      | some k => do
+        match ← toPath (jArr [k]) with
+        | [pe] => pure (some pe)
+        | _ => pure none
+      | none => pure none
+    match base?.bind (fun base => navigate d.st.heap base p) with
+    | none => .ok (d.emit (Json.bool false))
+    | some a =>
+      let (d1, x) ← match optField e "x" with
+        | some xj => operand cfg d xj
+        | none => pure (d, none)
+      match d1.st.heap[a]? with
+      | none => .ok (d1.emit (Json.bool false))
+      | some c =>
+        match editCell d1.st.heap c ename key x with
+        | none => .ok (d1.emit (Json.bool false))
+        | some c' => .ok ((d1.run cfg [.mutate a c']).emit (Json.bool true))
+  | _ => .error s!"unknown step {op}"
+
+/-- {"m":"c11.run","copy":bool,"direct":bool,"steps":[…]} → the list of observations -/
+def runH : Handler := fun j => do
+  let cfg : Cfg := { copyOnIntercept := ← boolField j "copy", direct := (← asBool (fieldD j "direct" (Json.bool false))) }
+  let steps ← arrField j "steps"
+  let d0 : DSt := { st := init [], vars := [], recs := [], out := [] }
+  let d ← steps.foldlM (step cfg) d0
+  .ok (jArr d.out.reverse)
+
+def handlers : List (String × Handler) := [("c11.run", runH)]
 
 end Drive.Heap
